@@ -146,11 +146,24 @@ def run(ctx):
                                            poly_trend=poly, v0_offsets=offs or None, model=model, **extra)
             nd = ctx.n(20000, 100000)
             if i % 4 == 1:
-                nd = int(65536 * int(rng.choice([1, 1, 2])) + rng.integers(1, 30000))    # straddles 2^16 / 2^17 (internal blocking)
+                # straddles 2^16 / 2^17 and 1e5 (internal blocking); alternates between the shards
+                nd = int(65536 * (1 + (ctx.shard + i // 4) % 2) + rng.integers(1, 30000))
             elif i % 4 == 3:
                 nd = int(rng.choice([1, 2, 3, 17, 257, 1000]))                              # tiny requests
             desc["n_draws"] = nd
-            smp = prior.sample(size=nd, generate_linear=gl, return_logprobs=True, rng=np.random.default_rng([ctx.seed, ctx.shard, i]))
+            # the seed as a Generator or as a plain integer (both are what pm.draw's random_seed takes)
+            int_seed = bool((ctx.shard + i) % 3 == 1) or (i % 4 == 1 and nd > 100000 and (ctx.shard // 2 + i // 4) % 2 == 0)
+            desc["seed_kind"] = "int" if int_seed else "Generator"
+            seed_arg = int(1000003 * ctx.seed + 1009 * ctx.shard + i + 17) if int_seed else np.random.default_rng([ctx.seed, ctx.shard, i])
+            smp = prior.sample(size=nd, generate_linear=gl, return_logprobs=True, rng=seed_arg)
+            # independent draws of continuous variables never repeat: a library assembled from pieces that restart the
+            # same stream does
+            trip = np.stack([np.asarray(smp["P"].value, float), np.asarray(smp["e"], float), np.asarray(smp["omega"].value, float)], axis=1)
+            n_unique = len(np.unique(trip, axis=0))
+            ctx.evaluations += 1
+            if n_unique != nd:
+                ctx.violation("draws-repeat", "prior.sample(size=%d): only %d distinct (P, e, omega) rows - rows are repeated"
+                              % (nd, n_unique), desc)
             Pd = np.asarray(smp["P"].to_value(u.day), dtype=float)
             ev = np.asarray(smp["e"], dtype=float)
             cfgcls = (pu, poly, noff, gl, ku, s_kind)
